@@ -105,6 +105,14 @@ func (i *interpreter) lookupIntercept(fn *ssa.Function) intercept {
 			if r := fr.i.cur; r != nil && r.ex != nil {
 				r.icount(name)
 			}
+			defer func() {
+				if p := recover(); p != nil {
+					if u, ok := p.(unsupportedErr); ok && !strings.Contains(u.msg, " [in ") {
+						panic(unsupportedErr{u.msg + " [in " + name + "]"})
+					}
+					panic(p)
+				}
+			}()
 			return inner(fr, args)
 		}
 	}
@@ -119,14 +127,30 @@ func (r *runState) icount(name string) {
 	r.icounts[name]++
 }
 
+// zeroResults builds the result of a stubbed (empty-body) function: zero values, except that
+// pointers to structs are fresh zero structs so that promoted-method calls on them do not fault.
 func zeroResults(sig *types.Signature) value {
+	one := func(t types.Type) value {
+		if p, ok := t.Underlying().(*types.Pointer); ok {
+			if _, ok := p.Elem().Underlying().(*types.Struct); ok {
+				cell := new(value)
+				*cell = zero(p.Elem())
+				return cell
+			}
+		}
+		return zero(t)
+	}
 	switch sig.Results().Len() {
 	case 0:
 		return nil
 	case 1:
-		return zero(sig.Results().At(0).Type())
+		return one(sig.Results().At(0).Type())
 	}
-	return zero(sig.Results())
+	out := make(tuple, sig.Results().Len())
+	for i := range out {
+		out[i] = one(sig.Results().At(i).Type())
+	}
+	return out
 }
 
 // runBody executes fn's SSA body bypassing the intercept lookup.
